@@ -103,7 +103,12 @@ CFG = dict(
                   "atomic.AddUint64 as an atomic increment; gen/glbfacts + Lib/Lockset for 'storeID is only touched atomically, "
                   "the routing fields are read-only inside ServeHTTP'; the Go race detector for ownership of a Store between Get and Put",
                   "the model Model/StorePool.v is hand-written; tied to httpd/httpd.go differentially"],
-    assumptions=["registrations (Handle / HandleRelay / HandleNoRoute) and requests do not overlap in time: ServeHTTP walks the trie without "
+    assumptions=["RE-ENTRANT use is covered dynamically: a handler may dispatch again with its own writer (mux.ServeHTTP(store.W, r2), same Mux "
+                 "or a second one; in the model simply a request begun while another is in flight) and may call Handle on the Mux that is "
+                 "serving it, sequentially inside its own request, watched by a 3 s timer (a handler that never returns is a violation); the "
+                 "model's LRegister is not enabled while requests are in flight, so from an in-handler registration on such a history is judged "
+                 "by the specification and the fresh-Mux oracle only (stat judged_without_model_after_in_handler_registration)",
+                 "registrations (Handle / HandleRelay / HandleNoRoute) and requests do not overlap in time: ServeHTTP walks the trie without "
                  "mux.mu, so registering while requests are served is a data race in the code; the property quantifies over routes "
                  "registered before or after earlier requests, not during (model: LRegister is enabled only with no request in flight)",
                  "a REJECTED registration is part of a history: Handle panics, the caller recovers, the trie keeps the nodes created "
